@@ -307,6 +307,15 @@ func Apply(data []byte, f Fault) []byte {
 			out = append(out, data[f.Off+1:]...)
 		}
 		return out
+	case "stride8":
+		// overwrite every 8th byte starting at phase Off with one value: when the phase is the top
+		// byte of a run of little-endian float64s this makes every coordinate tiny or huge (but
+		// finite) at once, without the harness knowing where the floats are
+		out := append([]byte(nil), data...)
+		for i := f.Off; i < len(out); i += 8 {
+			out[i] = byte(f.Arg)
+		}
+		return out
 	case "garbage-tail":
 		out := append([]byte(nil), data...)
 		x := f.Arg | 1
